@@ -343,6 +343,71 @@ fn fix_local_2_vertex(input: &DSetOrEmpty) -> Option<DSetOrEmpty> {
 }
 
 
+fn cells_are_spheres(ds: &PartialDSet, idcs: [usize; 3]) -> bool {
+    // Euler characteristic 2 for every two-dimensional orbit of the given
+    // type: (0,1,2) for the tiles, (1,2,3) for the vertex figures
+    let [i, j, k] = idcs;
+    ds.orbit_reps(idcs, 1..=ds.size()).iter().all(|&d| {
+        let orb = ds.orbit(idcs, d);
+        let count = |a: usize, b: usize| {
+            ds.orbit_reps([a, b], orb.iter().cloned()).len() as isize
+        };
+        count(j, k) - count(i, k) + count(i, j) == 2
+    })
+}
+
+
+fn merge_folded_faces(input: &DSetOrEmpty) -> Option<DSetOrEmpty> {
+    match input {
+        DSetOrEmpty::Empty => None,
+        DSetOrEmpty::DSet(ds) => {
+            // An edge of degree 1: the two faces meeting at it inside the
+            // tile are glued to each other by the fold along that edge.
+            // Zipping them up removes both faces (like merging two tiles
+            // across an inner face, but within one tile). The faces may
+            // touch elsewhere in ways that do not match the fold, so the
+            // zip is only accepted if tiles and vertex figures are still
+            // spheres afterwards.
+            for d in ds.orbit_reps([2, 3], 1..=ds.size()) {
+                if ds.op(2, d) == ds.op(3, d) {
+                    let partner = ds.op(3, d).unwrap();
+                    if !ds.orbit([0, 1], d).contains(&partner) {
+                        let junk = ds.orbit([0, 1, 3], d);
+                        match collapse(input, junk, 3) {
+                            Some(DSetOrEmpty::DSet(out)) => {
+                                if
+                                    cells_are_spheres(&out, [0, 1, 2]) &&
+                                    cells_are_spheres(&out, [1, 2, 3])
+                                {
+                                    return Some(DSetOrEmpty::DSet(out));
+                                }
+                            },
+                            Some(DSetOrEmpty::Empty) => {
+                                return Some(DSetOrEmpty::Empty);
+                            },
+                            None => {},
+                        }
+                    }
+                }
+            }
+            None
+        }
+    }
+}
+
+
+fn fix_folded_faces(input: &DSetOrEmpty) -> Option<DSetOrEmpty> {
+    // folded faces, or dually faces with a single edge, can survive the
+    // merges when there is only one tile (or vertex) left
+    if let Some(out) = merge_folded_faces(input) {
+        return Some(out);
+    }
+    let d = dual(input)?;
+    let out = merge_folded_faces(&d)?;
+    Some(dual(&out).unwrap_or(out))
+}
+
+
 fn fix_non_disk_face(input: &DSetOrEmpty) -> Option<DSetOrEmpty> {
     match input {
         DSetOrEmpty::Empty => None,
@@ -685,6 +750,7 @@ pub fn simplify<T: DSet>(ds: &T) -> Option<PartialDSym> {
     loop {
         let mut changed = false;
         for op in [
+            fix_folded_faces,
             fix_local_1_vertex,
             fix_local_2_vertex,
             fix_non_disk_face,
